@@ -491,3 +491,298 @@ Section FlatSem.
     - right; right. destruct (kmap_get_in _ _ _ Hk) as (k' & Hin). eapply in_kmap_all; eauto.
   Qed.
 End FlatSem.
+
+(** ** 5. the theorem *)
+Lemma in_item_derives s flat key c x :
+  In x (d_derives (item_derives s flat key c)) <->
+  In x (d_derives (resolve_derives flat key)) \/ (c = true /\ s_compact_as s = Some x).
+Proof.
+  unfold item_derives, add_as_compact. destruct c.
+  - destruct (s_compact_as s) as [k|]; cbn [d_derives].
+    + rewrite in_app_iff. cbn [In]. split.
+      * intros [H|[E|[]]]; [left; exact H|right; split; congruence].
+      * intros [H|[_ E]]; [left; exact H|right; left; congruence].
+    + split; [tauto|]. intros [H|[_ E]]; [exact H|discriminate].
+  - split; [tauto|]. intros [H|[E _]]; [exact H|discriminate].
+Qed.
+
+Lemma attrs_item_derives s flat key c :
+  d_attrs (item_derives s flat key c) = d_attrs (resolve_derives flat key).
+Proof.
+  unfold item_derives, add_as_compact. destruct c; [|reflexivity].
+  destruct (s_compact_as s); reflexivity.
+Qed.
+
+Lemma all_nil_eq (l1 l2 : list (list string)) :
+  List.length l1 = List.length l2 -> Forall (eq []) l1 -> Forall (eq []) l2 -> l1 = l2.
+Proof.
+  revert l2. induction l1 as [|a l1 IH]; intros [|b l2] Hlen H1 H2; try discriminate; [reflexivity|].
+  inversion H1; inversion H2; subst. f_equal. apply IH; auto.
+Qed.
+
+Lemma ir_docs_length a b :
+  erase_ids a = erase_ids b -> List.length (snd (ir_docs a)) = List.length (snd (ir_docs b)).
+Proof.
+  intros H.
+  assert (Hk : erase_kind (ti_kind a) = erase_kind (ti_kind b)).
+  { change (ti_kind (erase_ids a) = ti_kind (erase_ids b)). rewrite H. reflexivity. }
+  unfold ir_docs.
+  destruct (ti_kind a) as [c1|n1 d1 v1], (ti_kind b) as [c2|n2 d2 v2]; cbn [erase_kind] in Hk;
+    try discriminate; [reflexivity|].
+  inversion Hk as [[Hn Hv]]. cbn [snd]. rewrite !map_length.
+  rewrite <- (map_length (fun x => (fst x, erase_ci (snd x))) v1), Hv. apply map_length.
+Qed.
+
+Lemma docs_spec_off s t :
+  s_docs s = false -> fst (docs_spec s t) = [] /\ Forall (eq []) (snd (docs_spec s t)).
+Proof.
+  intros H. unfold docs_spec, docs_from_scale_info. rewrite H. cbn [fst snd]. split; [reflexivity|].
+  apply Forall_forall. intros x Hx. apply in_map_iff in Hx as (y & E & _). exact E.
+Qed.
+
+Section Main.
+  Variable pi : N -> N.
+  Variable r : registry.
+  Variable s : settings.
+  Hypothesis Hpi : renumbering (N.of_nat (List.length r)) pi.
+
+  Let Hinj : forall i j, pi i = pi j -> i = j := proj1 Hpi.
+  Let r' := renumber pi r.
+
+  Lemma collect_type_ids_renumber id :
+    collect_type_ids r' (pi id) = rmap (map pi) (collect_type_ids r id).
+  Proof.
+    apply collect_type_ids_equivariant;
+      [exact Hinj|apply resolve_renumber; exact Hpi|apply renumber_length].
+  Qed.
+
+  Lemma rec_in_renumber proj rec k x : rec_in proj r' rec k x <-> rec_in proj r rec k x.
+  Proof.
+    split.
+    - intros (root' & troot' & kr & d & ids' & i' & ti' & Hroot & Hkr & Hd & Hcc & Hi & Hti & Hk & Hx).
+      apply (in_renumber pi r _ Hpi) in Hroot as ([root troot] & Hroot & E).
+      unfold rename_entry in E. cbn [fst snd] in E. inversion E; subst root' troot'; clear E.
+      rewrite collect_type_ids_renumber in Hcc.
+      destruct (collect_type_ids r root) as [ids|e|m] eqn:Ec; try discriminate.
+      cbn [rmap bind] in Hcc. inversion Hcc; subst ids'; clear Hcc.
+      apply in_map_iff in Hi as (i & E & Hi). subst i'.
+      apply (in_renumber pi r _ Hpi) in Hti as ([i2 ti] & Hti & E).
+      unfold rename_entry in E. cbn [fst snd] in E. inversion E as [[Ei Et]]; subst ti'.
+      apply Hinj in Ei. subst i2.
+      exists root, troot, kr, d, ids, i, ti. repeat split; auto.
+    - intros (root & troot & kr & d & ids & i & ti & Hroot & Hkr & Hd & Hcc & Hi & Hti & Hk & Hx).
+      exists (pi root), (rename_ty pi troot), kr, d, (map pi ids), (pi i), (rename_ty pi ti).
+      split; [apply (in_renumber pi r _ Hpi); exists (root, troot); split; [exact Hroot|reflexivity]|].
+      split; [exact Hkr|]. split; [exact Hd|].
+      split; [rewrite collect_type_ids_renumber, Hcc; reflexivity|].
+      split; [apply in_map; exact Hi|].
+      split; [apply (in_renumber pi r _ Hpi); exists (i, ti); split; [exact Hti|reflexivity]|].
+      split; [exact Hk|exact Hx].
+  Qed.
+
+  Lemma union_d a b : d_derives (derives_union a b) = d_derives a ++ d_derives b.
+  Proof. reflexivity. Qed.
+  Lemma union_a a b : d_attrs (derives_union a b) = d_attrs a ++ d_attrs b.
+  Proof. reflexivity. Qed.
+
+  (** the derive TOKENS of a path are the same in both runs *)
+  Lemma item_derives_tokens flat1 flat2 key c :
+    derives_functional s -> ids_consistent r = true -> ids_consistent r' = true ->
+    flatten (s_dreg s) r = Ok flat1 -> flatten (s_dreg s) r' = Ok flat2 ->
+    derives_tokens (item_derives s flat1 key c) = derives_tokens (item_derives s flat2 key c).
+  Proof.
+    intros [Fd Fa] Hc Hc' Hf1 Hf2.
+    assert (Sd : forall x, In x (d_derives (resolve_derives flat1 key)) <->
+                           In x (d_derives (resolve_derives flat2 key))).
+    { intros x. rewrite (flatten_sem d_derives union_d eq_refl _ _ _ Hc Hf1),
+                        (flatten_sem d_derives union_d eq_refl _ _ _ Hc' Hf2).
+      fold r'. rewrite rec_in_renumber. reflexivity. }
+    assert (Sa : forall x, In x (d_attrs (resolve_derives flat1 key)) <->
+                           In x (d_attrs (resolve_derives flat2 key))).
+    { intros x. rewrite (flatten_sem d_attrs union_a eq_refl _ _ _ Hc Hf1),
+                        (flatten_sem d_attrs union_a eq_refl _ _ _ Hc' Hf2).
+      fold r'. rewrite rec_in_renumber. reflexivity. }
+    assert (Subd : forall rr flat, ids_consistent rr = true -> flatten (s_dreg s) rr = Ok flat ->
+              forall x, In x (d_derives (item_derives s flat key c)) -> In x (all_derives s)).
+    { intros rr flat Hcr Hfr x Hx. apply in_item_derives in Hx. unfold all_derives. apply in_or_app.
+      destruct Hx as [Hx|[_ Hx]].
+      - left. exact (flatten_sub d_derives union_d eq_refl s rr flat key x Hcr Hfr Hx).
+      - right. rewrite Hx. left; reflexivity. }
+    assert (Suba : forall rr flat, ids_consistent rr = true -> flatten (s_dreg s) rr = Ok flat ->
+              forall x, In x (d_attrs (item_derives s flat key c)) -> In x (all_attrs s)).
+    { intros rr flat Hcr Hfr x Hx. rewrite attrs_item_derives in Hx.
+      exact (flatten_sub d_attrs union_a eq_refl s rr flat key x Hcr Hfr Hx). }
+    apply derives_tokens_canonical.
+    - eapply key_functional_sub; [|exact Fd]. intros x Hx. apply in_app_or in Hx as [Hx|Hx].
+      + exact (Subd r flat1 Hc Hf1 x Hx).
+      + exact (Subd r' flat2 Hc' Hf2 x Hx).
+    - eapply key_functional_sub; [|exact Fa]. intros x Hx. apply in_app_or in Hx as [Hx|Hx].
+      + exact (Suba r flat1 Hc Hf1 x Hx).
+      + exact (Suba r' flat2 Hc' Hf2 x Hx).
+    - intros x. rewrite !in_item_derives, Sd. reflexivity.
+    - intros x. rewrite !attrs_item_derives. apply Sa.
+  Qed.
+
+  Lemma eligible_item s0 t flat ir :
+    eligible s0 t = true -> create_type_ir r s0 t flat = Ok (Some ir) -> item_eligible s0 t = true.
+  Proof.
+    intros He Hc. unfold item_eligible. rewrite (create_type_ir_some_cv _ _ _ _ _ Hc).
+    unfold eligible in He. apply andb_prop in He as [H1 H2]. rewrite H1, H2. reflexivity.
+  Qed.
+
+  (** two item-eligible entries of one path give the same item tokens, whatever the flat
+      derive registries of the two runs *)
+  Lemma family_tokens flat1 flat2 id1 t1 ir1 id2 t2 ir2 :
+    skeleton_consistent r s -> docs_consistent r s -> derives_functional s ->
+    ids_consistent r = true -> ids_consistent r' = true ->
+    flatten (s_dreg s) r = Ok flat1 -> flatten (s_dreg s) r' = Ok flat2 ->
+    In (id1, t1) r -> In (id2, t2) r -> t_path t1 = t_path t2 ->
+    eligible s t1 = true -> eligible s t2 = true ->
+    create_type_ir r s t1 flat1 = Ok (Some ir1) ->
+    create_type_ir r s t2 flat2 = Ok (Some ir2) ->
+    type_ir_tokens s ir1 = type_ir_tokens s ir2.
+  Proof.
+    intros Hsk Hdc Hdf Hc Hc' Hf1 Hf2 Hin1 Hin2 Hp He1 He2 C1 C2.
+    pose proof (eligible_item s t1 flat1 ir1 He1 C1) as Hi1.
+    pose proof (eligible_item s t2 flat2 ir2 He2 C2) as Hi2.
+    destruct (find_exists (fun e => path_eqb (t_path (snd e)) (t_path t1) && item_eligible s (snd e))
+                          r (id1, t1) Hin1) as ([id0 X0] & Hfind).
+    { cbn [snd]. rewrite path_eqb_refl, Hi1. reflexivity. }
+    change (first_eligible r s (t_path t1) = Some (id0, X0)) in Hfind.
+    pose proof Hfind as Hfind2. rewrite Hp in Hfind2.
+    pose proof (Hsk id1 t1 id0 X0 Hin1 Hi1 Hfind) as S1.
+    pose proof (Hsk id2 t2 id0 X0 Hin2 Hi2 Hfind2) as S2.
+    rewrite (skeleton_of _ _ _ _ _ C1) in S1. rewrite (skeleton_of _ _ _ _ _ C2) in S2.
+    assert (He : erase_ids ir1 = erase_ids ir2) by congruence.
+    destruct (create_type_ir_facts _ _ _ _ _ C1) as (D1 & key1 & K1 & Dv1).
+    destruct (create_type_ir_facts _ _ _ _ _ C2) as (D2 & key2 & K2 & Dv2).
+    rewrite <- Hp in K2. assert (key2 = key1) by congruence. subst key2.
+    apply type_ir_tokens_skel.
+    - exact He.
+    - rewrite D1, D2. destruct (s_docs s) eqn:Ed.
+      + unfold docs_spec. rewrite (Hdc Ed id1 t1 id0 X0 Hin1 Hi1 Hfind).
+        rewrite (Hdc Ed id2 t2 id0 X0 Hin2 Hi2 Hfind2). reflexivity.
+      + destruct (docs_spec_off s t1 Ed) as [A1 B1]. destruct (docs_spec_off s t2 Ed) as [A2 B2].
+        pose proof (ir_docs_length _ _ He) as Hl. rewrite D1, D2 in Hl.
+        destruct (docs_spec s t1) as [a1 b1], (docs_spec s t2) as [a2 b2]. cbn [fst snd] in *.
+        subst a1 a2. f_equal. apply all_nil_eq; assumption.
+    - rewrite Dv1, Dv2.
+      assert (Ek : cdac_of (ti_kind ir1) = cdac_of (ti_kind ir2)).
+      { rewrite <- (cdac_of_erase (ti_kind ir1)), <- (cdac_of_erase (ti_kind ir2)).
+        change (erase_kind (ti_kind ir1)) with (ti_kind (erase_ids ir1)).
+        change (erase_kind (ti_kind ir2)) with (ti_kind (erase_ids ir2)). rewrite He. reflexivity. }
+      rewrite Ek. apply item_derives_tokens; assumption.
+  Qed.
+
+  (** Renumbering leaves the module token-identical: same-path families and recursive
+      derives included. *)
+  Theorem permutation_tokens teq teq' m1 m2 :
+    skeleton_consistent r s -> docs_consistent r s -> derives_functional s ->
+    generate r s teq = Ok m1 ->
+    generate r' s teq' = Ok m2 ->
+    emit_module s m1 = emit_module s m2.
+  Proof.
+    intros Hsk Hdc Hdf G1 G2.
+    assert (Hc : ids_consistent r = true).
+    { apply first_bad_none_iff. eapply generate_sanity; exact G1. }
+    assert (Hc' : ids_consistent r' = true).
+    { apply first_bad_none_iff. eapply generate_sanity; exact G2. }
+    pose proof G1 as H1. pose proof G2 as H2. unfold generate in H1, H2.
+    apply bind_ok in H1 as (u1 & _ & H1). apply bind_ok in H1 as (flat1 & Hf1 & H1).
+    apply bind_ok in H2 as (u2 & _ & H2). apply bind_ok in H2 as (flat2 & Hf2 & H2).
+    assert (S1 : items_sorted m1) by (eapply gen_loop_sorted; [apply items_sorted_nil|exact H1]).
+    assert (S2 : items_sorted m2) by (eapply gen_loop_sorted; [apply items_sorted_nil|exact H2]).
+    (* forward *)
+    assert (K : forall p id ir, items_get m1 p = Some (id, ir) ->
+              exists id2 ir2, items_get m2 p = Some (id2, ir2) /\
+                              type_ir_tokens s ir = type_ir_tokens s ir2).
+    { intros p id ir E1.
+      destruct (gen_loop_keys r s teq flat1 r [] m1 p id ir H1 E1) as [Ha|(t & Hin & Hp & Hel & Hcr)];
+        [discriminate Ha|].
+      destruct (create_type_ir_flat r s t flat1 flat2 ir Hcr) as (irb & Hcb & _).
+      assert (Hin' : In (pi id, rename_ty pi t) r').
+      { apply (in_renumber pi r _ Hpi). exists (id, t). split; [exact Hin|reflexivity]. }
+      assert (Hc2 : create_type_ir r' s (rename_ty pi t) flat2 = Ok (Some (rename_ir pi irb))).
+      { unfold r'. rewrite (create_type_ir_renumber pi r s Hpi), Hcb. reflexivity. }
+      destruct (gen_loop_complete r' s teq' flat2 r' [] m2 H2 (pi id) (rename_ty pi t) _ Hin'
+                                  (eq_trans (eligible_rename pi s t) Hel) Hc2) as ([id2 ir2] & E2).
+      change (t_path (rename_ty pi t)) with (t_path t) in E2. rewrite Hp in E2.
+      exists id2, ir2. split; [exact E2|].
+      destruct (gen_loop_keys r' s teq' flat2 r' [] m2 p id2 ir2 H2 E2)
+        as [Ha|(t2' & Hin2 & Hp2 & Hel2 & Hcr2)]; [discriminate Ha|].
+      apply (in_renumber pi r _ Hpi) in Hin2 as ([i2 t2] & Hin2 & E).
+      unfold rename_entry in E. cbn [fst snd] in E. inversion E; subst id2 t2'; clear E.
+      unfold r' in Hcr2. rewrite (create_type_ir_renumber pi r s Hpi) in Hcr2.
+      destruct (create_type_ir r s t2 flat2) as [[ir2b|]|e|msg] eqn:Hcr2b; try discriminate Hcr2.
+      cbn [rmap_e option_map] in Hcr2. inversion Hcr2; subst ir2; clear Hcr2.
+      rewrite type_ir_tokens_rename.
+      change (t_path (rename_ty pi t2)) with (t_path t2) in Hp2.
+      eapply (family_tokens flat1 flat2 id t ir i2 t2 ir2b); eauto. congruence. }
+    (* backward *)
+    assert (K' : forall p id2 ir2, items_get m2 p = Some (id2, ir2) -> exists v, items_get m1 p = Some v).
+    { intros p id2 ir2 E2.
+      destruct (gen_loop_keys r' s teq' flat2 r' [] m2 p id2 ir2 H2 E2)
+        as [Ha|(t2' & Hin2 & Hp2 & Hel2 & Hcr2)]; [discriminate Ha|].
+      apply (in_renumber pi r _ Hpi) in Hin2 as ([i2 t2] & Hin2 & E).
+      unfold rename_entry in E. cbn [fst snd] in E. inversion E; subst id2 t2'; clear E.
+      unfold r' in Hcr2. rewrite (create_type_ir_renumber pi r s Hpi) in Hcr2.
+      destruct (create_type_ir r s t2 flat2) as [[ir2b|]|e|msg] eqn:Hcr2b; try discriminate Hcr2.
+      destruct (create_type_ir_flat r s t2 flat2 flat1 ir2b Hcr2b) as (ira & Hca & _).
+      change (t_path (rename_ty pi t2)) with (t_path t2) in Hp2. rewrite <- Hp2.
+      eapply (gen_loop_complete r s teq flat1 r [] m1 H1 i2 t2 ira Hin2); [|exact Hca].
+      exact Hel2. }
+    apply emit_module_ext.
+    apply (sorted_items_rel
+             (fun v1 v2 => type_ir_tokens s (snd v1) = type_ir_tokens s (snd v2)) m1 m2 S1 S2).
+    intros p. destruct (items_get m1 p) as [[id ir]|] eqn:E1.
+    - destruct (K p id ir E1) as (id2 & ir2 & E2 & Ht). rewrite E2. cbn [snd]. exact Ht.
+    - destruct (items_get m2 p) as [[id2 ir2]|] eqn:E2; [|exact I].
+      destruct (K' p id2 ir2 E2) as (v & Hv). rewrite E1 in Hv. discriminate Hv.
+  Qed.
+End Main.
+
+(** ** the boolean hypotheses evaluated on concrete inputs *)
+Lemma strs_list_eqb_sound (a b : list (list string)) :
+  list_eqb (list_eqb String.eqb) a b = true -> a = b.
+Proof. apply list_eqb_sound. exact strs_eqb_sound. Qed.
+
+Theorem docs_consistentb_sound r s : docs_consistentb r s = true -> docs_consistent r s.
+Proof.
+  unfold docs_consistentb, docs_consistent. intros H Hd id X id0 X0 Hin He Hfirst.
+  rewrite Hd in H. cbn [negb orb] in H. rewrite forallb_forall in H.
+  specialize (H (id, X) Hin). cbn [snd] in H. rewrite He, Hfirst in H. cbn [snd] in H.
+  unfold entry_docs_eqb in H. apply andb_prop in H as [H1 H2].
+  apply strs_eqb_sound in H1. apply strs_list_eqb_sound in H2.
+  destruct (entry_docs X) as [a b], (entry_docs X0) as [a0 b0]. cbn [fst snd] in *. congruence.
+Qed.
+
+Lemma kt_eqb_sound x y : kt_eqb x y = true -> x = y.
+Proof.
+  destruct x as [k1 t1], y as [k2 t2]. unfold kt_eqb. cbn [fst snd]. intros H.
+  apply andb_prop in H as [H1 H2]. apply String.eqb_eq in H1. apply strs_eqb_sound in H2. congruence.
+Qed.
+
+Lemma kt_functionalb_sound l : kt_functionalb l = true -> kt_functional l.
+Proof.
+  unfold kt_functionalb, kt_functional. intros H x y Hx Hy E.
+  rewrite forallb_forall in H. specialize (H x Hx). rewrite forallb_forall in H. specialize (H y Hy).
+  rewrite E, String.eqb_refl in H. cbn [negb orb] in H. apply kt_eqb_sound; exact H.
+Qed.
+
+Theorem derives_functionalb_sound s : derives_functionalb s = true -> derives_functional s.
+Proof.
+  unfold derives_functionalb, derives_functional. intros H. apply andb_prop in H as [H1 H2].
+  split; apply kt_functionalb_sound; assumption.
+Qed.
+
+Theorem permutation_tokens_b pi r s teq teq' m1 m2 :
+  renumbering (N.of_nat (List.length r)) pi ->
+  skeleton_consistentb r s = true -> docs_consistentb r s = true -> derives_functionalb s = true ->
+  generate r s teq = Ok m1 -> generate (renumber pi r) s teq' = Ok m2 ->
+  emit_module s m1 = emit_module s m2.
+Proof.
+  intros Hpi H1 H2 H3. apply (permutation_tokens pi r s Hpi).
+  - apply skeleton_consistentb_sound; exact H1.
+  - apply docs_consistentb_sound; exact H2.
+  - apply derives_functionalb_sound; exact H3.
+Qed.
